@@ -362,3 +362,69 @@ def rule_dep_features(ctx):
         if want not in seen:
             obs.append(bad('DEP-FEATURES', 'floor/' + want, 'anchor-missing: %s is not in the resolved dependency graph' % want))
     return obs
+
+
+# ================================================================================================
+# VALUE-FOLD — the derive's keyword-valued attributes (`deprecated`, `normalization`) are looked up in lower-case tables: all of them
+# fold the case of what the user wrote on the way to the table, or none does (siblings must agree)
+# ================================================================================================
+
+FOLDS = ('to_lowercase', 'to_ascii_lowercase', 'eq_ignore_ascii_case', 'make_ascii_lowercase')
+
+
+def _folds(fn, e):
+    """is the case folded in expression e (read through the let-bound locals it uses)?"""
+    for n in H.walk_through_locals(fn, e):
+        if n.get('k') == 'mcall' and n.get('method') in FOLDS:
+            return True
+        if n.get('k') == 'call' and any(p.rsplit('::', 1)[-1] in FOLDS for p in H.callee_paths(n)):
+            return True
+    return False
+
+
+@rule('VALUE-FOLD')
+def rule_value_fold(ctx):
+    obs = []
+    d = ctx.crate('derive')
+    sites = []
+    for fn in d.all_fns():
+        if fn.from_macro:
+            continue
+        for n in H.walk(fn.body):
+            target = None
+            if n.get('k') == 'mcall' and n.get('method') == 'parse' and any(p.endswith('str::parse') for p in H.callee_paths(n)):
+                target = ((n.get('callee') or {}).get('gargs') or '').strip('[]').split(',')[0].strip()
+            elif n.get('k') == 'call' and any(p.endswith('FromStr::from_str') for p in H.callee_paths(n)):
+                m = re.search(r'<(.+?) as ', (n.get('callee') or {}).get('resolved', '') or '')
+                target = m.group(1) if m else None
+            if target and target.startswith('graphql_client_codegen::'):
+                sites.append((fn, n, target))
+    if len(sites) < 2:
+        return [bad('VALUE-FOLD', 'floor', 'anchor-missing: expected the keyword-valued attributes of the derive (deprecated, normalization) to be parsed through FromStr, found %d sites' % len(sites))]
+    rows = []
+    for fn, n, target in sites:
+        impl = [f for f in ctx.crate('codegen').all_fns() if f.key.endswith('::from_str') and ('<' + target + ' as ') in f.key]
+        if not impl:
+            obs.append(undecided('VALUE-FOLD', short_name(fn) + '/table', 'FromStr impl of %s not found' % target, fn.loc))
+            continue
+        m, table, other = _kind_table(impl[0], target.rsplit('::', 1)[-1])
+        lits = sorted(table) if table else []
+        lower_only = bool(lits) and all(l == l.lower() and l != l.upper() for l in lits)
+        folded = _folds(fn, n.get('recv') if n.get('k') == 'mcall' else n.get('args')) or _folds(impl[0], impl[0].body)
+        rows.append((fn, n, target, lits, lower_only, folded))
+    folding = [r for r in rows if r[5]]
+    for fn, n, target, lits, lower_only, folded in rows:
+        inst = short_name(fn)
+        if folded or not lower_only:
+            obs.append(ok('VALUE-FOLD', inst, 'value -> %s: %s' % (target.rsplit('::', 1)[-1], 'case folded before the lower-case table %s' % lits if folded else 'table %s is not lower-case only' % lits), n.get('sp', fn.loc)))
+        elif folding:
+            obs.append(bad('VALUE-FOLD', inst, 'the value is compared case-sensitively with the lower-case table %s of %s, while %s folds the case of its value' % (
+                lits, target.rsplit('::', 1)[-1], ', '.join(sorted(short_name(r[0]) for r in folding))), n.get('sp', fn.loc),
+                'an option written with another capitalisation is (silently) not applied although its sibling accepts it'))
+        else:
+            obs.append(ok('VALUE-FOLD', inst, 'no keyword-valued attribute folds case (siblings agree): table %s' % lits, n.get('sp', fn.loc)))
+    return obs
+
+
+def short_name(fn):
+    return norm_path(fn.path).rsplit('::', 1)[-1]
